@@ -62,7 +62,8 @@ def build_combo(c, seed_):
         if c["decay"] == "general":
             dm["initial_concentration"] = "j"
         if c["scale"] == "yes":
-            par.setdefault("sc", []).append([str(i), 2.0 + i, {"vary": False}])
+            # "free": the scale of every dataset but the first is a free parameter (identifiable in a linked group)
+            par.setdefault("sc", []).append([str(i), 2.0 + i, {"vary": bool(c.get("free_scale")) and i > 0}])
             dm["scale"] = f"sc.{i}"
             scales.append(2.0 + i)
         else:
@@ -165,7 +166,8 @@ def check_combo(chk, c, seed_, recover):
         chk.nontriv("combo:" + key_c)
 
 
-RECOVER = [{"decay": "sequential", "irf": "gaussian", "glob": "clp", "baseline": "no", "osc": "no", "artifact": "no", "nds": "1", "scale": "no"},
+RECOVER = [{"decay": "parallel", "irf": "gaussian", "glob": "clp", "baseline": "no", "osc": "no", "artifact": "no", "nds": "2", "scale": "yes", "free_scale": True},
+           {"decay": "sequential", "irf": "gaussian", "glob": "clp", "baseline": "no", "osc": "no", "artifact": "no", "nds": "1", "scale": "no"},
            {"decay": "parallel", "irf": "none", "glob": "clp", "baseline": "yes", "osc": "no", "artifact": "no", "nds": "2", "scale": "yes"},
            {"decay": "sequential", "irf": "gaussian", "glob": "spectral", "baseline": "no", "osc": "no", "artifact": "no", "nds": "1", "scale": "no"}]
 
@@ -183,7 +185,7 @@ def run(chk, tier, rng):
     pick = combos if n >= len(combos) else rng.sample(combos, n)
     for i, c in enumerate(pick):
         check_combo(chk, c, 1000 + i, recover=False)
-    for i, c in enumerate(RECOVER[:1] if tier == "quick" else RECOVER + rng.sample(combos, 20)):
+    for i, c in enumerate(RECOVER[:2] if tier == "quick" else RECOVER + rng.sample(combos, 20)):
         check_combo(chk, c, 5000 + i, recover=True)
     chk.sample({"builtin_combo": pick[0]})
 
